@@ -87,6 +87,8 @@ class Engine(FsMixin, ExprMixin, StmtMixin, CallMixin, SpecMixin, BuiltinMixin, 
         self.frontier = z3.Int("FRONTIER")
         self.frontier_blocks = []
         self.glob_hooks = []
+        self._consts_done = set()
+        self._nsent = 0
         self.fs_write_hooks = []
         self.extra_axioms = []
         self._fresh_range = None
@@ -127,6 +129,7 @@ class Engine(FsMixin, ExprMixin, StmtMixin, CallMixin, SpecMixin, BuiltinMixin, 
         if node is None:
             raise KeyError(f"function {qualname} not found in {rel}")
         node = strip(node)
+        self.module_consts(rel)
         cls = qualname.rsplit(".", 1)[0].split(".")[-1] if "." in qualname else None
         self.functions[key] = (node, cls)
         decs = decorators(node)
@@ -135,6 +138,24 @@ class Engine(FsMixin, ExprMixin, StmtMixin, CallMixin, SpecMixin, BuiltinMixin, 
         if inline:
             self.inline_keys.add(key)
         return node
+
+    def module_consts(self, rel):
+        """module-level `NAME = <literal>` and `NAME = object()` of the file become constants (sentinels are distinct objects)"""
+        if rel in self._consts_done:
+            return
+        self._consts_done.add(rel)
+        for node in self.src.tree(rel).body:
+            if isinstance(node, ast.Assign) and len(node.targets) == 1 and isinstance(node.targets[0], ast.Name):
+                nm = node.targets[0].id
+                if nm in self.reg.consts:
+                    continue
+                v = node.value
+                if isinstance(v, ast.Constant) and isinstance(v.value, (bool, int, str, bytes)) or (isinstance(v, ast.Constant) and v.value is None):
+                    kind = "none" if v.value is None else type(v.value).__name__
+                    self.reg.consts[nm] = (kind, v.value)
+                elif isinstance(v, ast.Call) and isinstance(v.func, ast.Name) and v.func.id == "object" and not v.args:
+                    self._nsent += 1
+                    self.reg.consts[nm] = ("term", V(RefV(-900000 - self._nsent), "object"))
 
     def loop_contract(self, key):
         return self.loops.get(key, {})
